@@ -34,8 +34,9 @@ RAdd(p, q) ==
       pd == p[2] \div g  qd == q[2] \div g
   IN RNorm(p[1] * qd + q[1] * pd, pd * q[2])
 RSub(p, q) == RAdd(p, RNeg(q))
-RLe(p, q) == p[1] * q[2] <= q[1] * p[2]
-RLt(p, q) == p[1] * q[2] < q[1] * p[2]
+\* comparisons through the gcd-aware difference (smaller intermediates than cross-multiplication)
+RLe(p, q) == RAdd(q, RNeg(p))[1] >= 0
+RLt(p, q) == RAdd(q, RNeg(p))[1] > 0
 REq(p, q) == p = q
 RMax(p, q) == IF RLe(p, q) THEN q ELSE p
 RMin(p, q) == IF RLe(p, q) THEN p ELSE q
